@@ -204,6 +204,8 @@ func addLifeStuff(r rng, p *sdl.Program) {
 		if r.p(0.12) {
 			t.OrderClass = "marker"
 		}
+		// Order() / Priority() promoted from embedded structs instead of declared by the type
+		t.OrderMixin = r.p(0.2)
 		p.Types = append(p.Types, t)
 		cnt := 1
 		if r.p(0.3) {
@@ -286,10 +288,11 @@ func genClose(r rng, seed uint64, id string) *sdl.Program {
 	// shuts the container down
 	if r.p(0.35) {
 		for j := 0; j < r.n(1, 2); j++ {
-			t := &sdl.Type{Name: fmt.Sprintf("%sT%d", id, nt), Role: "runner"}
+			// (a runner may be a closer as well; the first one of two runs first)
+			t := &sdl.Type{Name: fmt.Sprintf("%sT%d", id, nt), Role: "runner", AlsoCloser: r.p(0.5), OrderClass: "ordered"}
 			nt++
 			p.Types = append(p.Types, t)
-			p.Instances = append(p.Instances, &sdl.Instance{ID: fmt.Sprintf("c%d", ni), Type: t.Name})
+			p.Instances = append(p.Instances, &sdl.Instance{ID: fmt.Sprintf("c%d", ni), Type: t.Name, Order: j})
 			ni++
 		}
 	}
